@@ -294,6 +294,61 @@ pub fn main(args: &[String]) {
                 emit(dependent_program(&mut r), "dependent");
             }
         }
+        "typelevel" => {
+            // a type computed by a type-level conditional on a comparison: the checker's normaliser and the evaluator
+            // must agree on every comparison operator at and around the boundary
+            let ops = ["<", "<=", "==", ">", ">="];
+            let mut n = 0;
+            'tl: for op in ops {
+                for k in [0i64, 3] {
+                    for a in [k - 1, k, k + 1] {
+                        for vint in [true, false] {
+                            for form in 0..3 {
+                                let arg = if a < 0 { format!("(-{})", -a) } else { a.to_string() };
+                                let v = if vint { "5" } else { "true" };
+                                let usex = if vint { "x + 1" } else { "if x then 1 else 2" };
+                                let text = match form {
+                                    0 => format!("t = (n : int) => if n {op} {k} then int else bool\nx : t {arg} = {v}\n{usex}"),
+                                    1 => format!("t : (int -> type) = (n : int) => if {k} {op} n then int else bool\nf = (x : t {arg}) => {usex}\nf {v}"),
+                                    _ => format!("coerce = (n : int) => (x : if n {op} {k} then int else bool) => ((y : if n {op} {k} then int else bool) => y) x\n(w : (if {arg} {op} {k} then int else bool) = coerce {arg} {v}; w)"),
+                                };
+                                emit(text, "typelevel");
+                                n += 1;
+                                if count > 0 && n >= count {
+                                    break 'tl;
+                                }
+                            }
+                        }
+                    }
+                }
+            }
+        }
+        "deforder" => {
+            // groups of 3..4 definitions with random dependencies between non-values and function values
+            for _ in 0..count {
+                let n = r.gen_range(3..5);
+                let mut defs = vec![];
+                for i in 0..n {
+                    // mostly backward references, so that a fair share of the groups is legal
+                    let pick = |r: &mut StdRng| if i > 0 && r.gen_bool(0.75) { r.gen_range(0..i) } else { r.gen_range(0..n) };
+                    let j = pick(&mut r);
+                    let k = pick(&mut r);
+                    let d = match r.gen_range(0..5) {
+                        0 => format!("d{i} : int = {}", r.gen_range(0..9)),
+                        1 => format!("d{i} : int = d{j} + 1"),
+                        2 => format!("d{i} : int = (if d{j} < 3 then d{k} else 2) * 2"),
+                        3 => format!("d{i} : (int -> int) = (x : int) => d{j} + x"),
+                        _ => format!("d{i} : (int -> int) = (x : int) => if x <= 0 then d{j} else d{k} (x - 1)"),
+                    };
+                    defs.push(d);
+                }
+                // make the annotations consistent with uses: a name used as a function must be a function and vice versa;
+                // inconsistent programs are simply rejected by the checker (TLC agrees), so no filtering is needed
+                let body = format!("d{}", r.gen_range(0..n));
+                let sep = if r.gen_bool(0.5) { "; " } else { "\n" };
+                emit(format!("{}{sep}{body}", defs.join(sep)), "deforder");
+            }
+        }
         "typed" => {
             let depth: usize = args.get(3).and_then(|s| s.parse().ok()).unwrap_or(3);
             for _ in 0..count {
@@ -313,7 +368,11 @@ pub fn main(args: &[String]) {
                 }
                 defs.shuffle(&mut r);
                 let group = defs.join("; ");
-                let text = match (base, r.gen_range(0..3)) {
+                let text = match (base, r.gen_range(0..5)) {
+                    // a function over the aliased type, defined in the group and applied to a value of the base type outside
+                    ("int", 3) => format!("({group}; (w : a1) => w) 7 + 1"),
+                    ("bool", 3) => format!("if ({group}; (w : a1) => w) true then 1 else 2"),
+                    ("int", 4) | ("bool", 4) => format!("({group}; (w : a1) => w) y"),
                     ("int", 0) => format!("({group}; y) + 1"),
                     ("int", 1) => format!("{group}; y + 1"),
                     ("bool", 0) => format!("if ({group}; y) then 1 else 2"),
